@@ -13,7 +13,7 @@ from harness import session as S
 from harness import ws
 from harness.core import setup_repo_imports
 
-OPS = [op for op in S.ALL_OPS if op not in ("stats_dict", "interp_like")] + ["hmax_notime"]
+OPS = [op for op in S.ALL_OPS if op not in ("stats_dict", "interp_like")] + ["hmax_notime"] + S.FIT_OPS
 POSWISE_EXEMPT = set()
 
 
@@ -114,6 +114,8 @@ def run(ctx):
                               {"err": str(ex)[:300], "order": order, "dtype": dtype})
                 continue
             rel = 3e-5 if dtype == "float32" else 1e-9
+            if op in ("fit_jonswap", "fit_gaussian"):
+                rel = 1e-4
             # Dataset accessor agrees with the accessor of efth
             d = S.same(S.project(rds), S.project(r0), 0.0, 0.0)
             if d:
